@@ -84,9 +84,9 @@ end accumulate
 section amdf
 variable {K : Type} [Field K] [LinearOrder K] [IsStrictOrderedRing K]
 
+omit [LinearOrder K] [IsStrictOrderedRing K] in
 /-- the lag filter `1 − z^-lag` of `amdf` computes `x[n] − x[n−lag]` (earlier samples = `zero`),
 for every lag including 0. -/
-omit [LinearOrder K] [IsStrictOrderedRing K] in
 theorem amdf_lag_filter_eq_spec (lag : Nat) (zero : K) (xs : List K) :
     frun (lagNum lag) [] zero xs = lagDiffSpec lag zero xs :=
   lagFilter_eq_spec lag zero xs
